@@ -1484,6 +1484,57 @@ def k_input_member(R, which, maxq):
     return out
 
 
+def k_field_name(R):
+    """codegen::selection::ExpandedSelection::field_name: for a selected field whose schema name and alias are unconstrained
+    strings (alias present / absent) the wire name is the alias, else the schema name, and the Rust identifier is the
+    keyword-escaped snake_case form of that name (never a reference keyword)."""
+    cands_fn = [fn for n, fn in R.L.funcs.items() if n.endswith('::field_name') and fn.params and 'ExpandedSelection' in fn.params[0][1]]
+    if len(cands_fn) != 1:
+        raise V.Unsupported('ExpandedSelection::field_name not found')
+    f = cands_fn[0]
+    out = []
+    fname, alias, has_alias = z3.String('fn_field'), z3.String('fn_alias'), z3.BitVec('fn_has_alias', 8)
+
+    def setup(st, B):
+        st.pc.append(z3.ULT(has_alias, 2))
+        tid_s = B.variant('TypeId', 'Scalar', B.newtype('ScalarId', bv(0, 64)))
+        fld = B.struct('StoredField', name=StrV(fname), type=B.struct('StoredFieldType', id=tid_s, qualifiers=VecV(())),
+                       parent=B.variant('StoredFieldParent', 'Object', B.newtype('ObjectId', bv(0, 32))), deprecation=none())
+        schema = one_field_schema(B)
+        names = R.L.structs['Schema']
+        fs = list(schema.fields)
+        fs[names.index('stored_fields')] = VecV([fld])
+        schema = Agg(None, fs, 'Schema')
+        bq = B.cell(B.struct('BoundQuery', query=B.cell(empty_query(B)), schema=B.cell(schema)))
+        es = B.struct('ExpandedSelection', query=bq, types=VecV(()), fields=VecV(()), variants=VecV(()), aliases=VecV(()), options=B.cell(options_value(B)))
+        sel = B.struct('SelectedField', alias=SymEnum(has_alias, {0: (), 1: (StrV(alias),)}), field_id=B.newtype('StoredFieldId', bv(0, 64)), selection_set=VecV(()))
+        R.vm.push_call(st, f, [B.cell(es), B.cell(sel)], None, None)
+    outs, _ = R.explore('ExpandedSelection::field_name', setup)
+    import summaries as Sm
+    for o in outs:
+        if o.kind != 'return':
+            m = R.prove('field_name', o, z3.BoolVal(False), 'no panic')
+            if m is not None:
+                out.append(dict(kernel='field_name', prop='C17', what=f'{o.kind}: {o.msg}', model=dict(name=m.eval(fname, model_completion=True).as_string())))
+            continue
+        gq = Sm.as_str(R.vm, o.state, o.value.fields[0])
+        rn = Sm.as_str(R.vm, o.state, o.value.fields[1])
+        name = z3.If(has_alias == 1, alias, fname)
+        sn = z3.If(has_alias == 1, SNAKE_OF(R, alias), SNAKE_OF(R, fname))
+        claims = {'C11:wire-name-is-alias-or-field-name': gq.z() == name,
+                  'C11:ident': z3.Or(rn.z() == sn, rn.z() == z3.Concat(sn, z3.StringVal('_'))),
+                  'C11:ident-not-keyword': z3.Not(z3.Or(*[rn.z() == z3.StringVal(k) for k in RUST_KEYWORDS_REF]))}
+        m = R.prove('field_name', o, z3.And(*claims.values()), 'response field / alias name')
+        if m is not None:
+            failing = [nm for nm, c in claims.items() if not z3.is_true(m.eval(c, model_completion=True))]
+            ev = lambda x: m.eval(x, model_completion=True)
+            out.append(dict(kernel='field_name', prop='C11', what=failing[0] if failing else '?',
+                            model=dict(name=ev(fname).as_string(), alias=ev(alias).as_string() if ev(has_alias).as_long() == 1 else None,
+                                       snake=ev(sn).as_string(), rust_name=ev(rn.z()).as_string())))
+    R.sample(dict(kernel='field_name', paths=len(outs)))
+    return out
+
+
 # ---------------------------------------------------------------- C10 / C09: enum definitions
 
 def flat_tokens(ts):
